@@ -186,6 +186,12 @@ def run(ctx) -> Report:
         else:
             rep.violation("C19-mro", (init, lp), "mro loop", f"{cls.name}: the mro loop does not stop at the first class providing a handler")
     check_memo_keys(ctx, rep, "C19-key", ["ufl.corealg.dag_traverser"], only_functions={"DAGTraverser.__call__"})
+    # every memo of the traversal machinery (drivers, decorators, transformer base classes): a memo that is not owned by
+    # the algorithm object (closure variable of a decorator, module-level table) does not store what depends on the object
+    from ..memokey import positive_control
+
+    positive_control(ctx)
+    check_memo_keys(ctx, rep, "C19-key", ["ufl.corealg.multifunction", "ufl.corealg.map_dag", "ufl.corealg.dag_traverser", "ufl.algorithms.transformer"], min_sites=3, owner_only=True)
     # T-EXH over all algorithm classes
     groups = ctx.disp.algorithm_classes()
     ctx.crosscheck_dispatch()
